@@ -30,9 +30,11 @@ type Entry struct {
 var funcN = regexp.MustCompile(`^func\d+$`)
 
 // symName reduces a runtime symbol to "<outermost named function or constructor>":
-//   github.com/x/vm.opAdd                                   -> opAdd
-//   github.com/x/vm.makeLog.func1                           -> makeLog
-//   github.com/x/vm.newFrontierInstructionSet.makeDup.func7 -> makeDup   (inlined constructor)
+//
+//	github.com/x/vm.opAdd                                   -> opAdd
+//	github.com/x/vm.makeLog.func1                           -> makeLog
+//	github.com/x/vm.newFrontierInstructionSet.makeDup.func7 -> makeDup   (inlined constructor)
+//
 // Constructor arguments are not visible here; they are covered by the digest of the table builders.
 func symName(pc uintptr) string {
 	if pc == 0 {
